@@ -5,7 +5,7 @@
 From Coq Require Import Decimal DecimalZ.
 From Coq Require Import List ZArith Bool Lia.
 From VibeSQL Require Import Lex.F64Display Lex.F64DisplayLaws Lex.F64RoundLaws Lex.F64DragonLaws
-  Lex.Placeholder Lex.PlaceholderLaws Lex.FloatTextLaws.
+  Lex.Placeholder Lex.PlaceholderLaws Lex.FloatTextLaws Lex.PlaceholderFixed Lex.PlaceholderFixedLaws.
 Import ListNotations.
 Open Scope Z_scope.
 
@@ -307,3 +307,8 @@ Example float_roundtrip_ex :
   read_back (PFloat 4890909195324358656 (* 2^63 *)) = Some (RFloat 4890909195324358656) /\
   read_back (PFloat 4621819117588971520 (* 10.0 *)) = Some (RInt 10) /\ f64_of_Z 10 = Some 4621819117588971520.
 Proof. vm_compute. repeat split. Qed.
+
+(** the same for the code as it is now (finite floats are converted as before) *)
+Theorem float_roundtrip_now : forall b, 0 <= b < two64 -> f64_finite b = true ->
+  exists r, read_back_now (PFloat b) = Some r /\ as_double r = Some (if f64_is_zero b then 0 else b).
+Proof. intros b Hb Hf. rewrite read_back_now_same by exact Hf. now apply float_roundtrip. Qed.
